@@ -43,6 +43,12 @@ SCRIPTS = {
     'u1_fork_ar': [('new_update', 'u1', 't1', 3, 2), ('add_groups', 'u1', 1, [G(1, parent_abs=0), G(2, parent_in=1)]),
                    ('add_jobs', 'u1', 1, [J(1, abs_group=0), J(2, parents=[1], group=2), J(3, parents=[1], group=1, always_run=True)]),
                    ('commit_tail', 'u1', 1)],
+    # like u1_chain, but job 2 names its parent by ABSOLUTE id (what the legacy `parent_ids` key becomes)
+    'u1_chain_abs': [('new_update', 'u1', 't1', 2, 1), ('add_groups', 'u1', 1, [G(1, parent_abs=0)]),
+                     ('add_jobs', 'u1', 1, [J(1, abs_group=0), J(2, abs_parents=[1], group=1)]), ('commit_tail', 'u1', 1)],
+    # the first update has only a job group, so the second update's job ids start at 1
+    'u1_groups_only': [('new_update', 'u1', 't1', 0, 1), ('add_groups', 'u1', 1, [G(1, parent_abs=0)]), ('commit_tail', 'u1', 1)],
+    'u2_parentless_job_in_g1': [('new_update', 'u1', 't2', 1, 0), ('add_jobs', 'u1', 2, [J(1, abs_group=1)]), ('commit', 'u1', 2)],
     'u1_single': [('new_update', 'u1', 't1', 1, 0), ('add_jobs', 'u1', 1, [J(1, abs_group=0)]), ('commit_tail', 'u1', 1)],
     # update 2 shapes (explored step by step)
     'u2_child_of_1': [('new_update', 'u1', 't2', 1, 0), ('add_jobs', 'u1', 2, [J(1, abs_parents=[1], abs_group=0)]), ('commit', 'u1', 2)],
@@ -445,11 +451,18 @@ class Family(dbmc.Harness):
         if not self.opts.get('no_sweeps'):
             out.append(('sweep_staging',))
             out.append(('sweep_cancellable',))
+            if w.pos < len(script) and script[w.pos][0] != 'commit' and any(l[0] in ('add_jobs', 'add_groups') for l in script[w.pos:]):
+                # the cleaner issues one DELETE per target, each its own transaction: the front end can stage the open
+                # update's bunches between two of them
+                for k in (1, 2):
+                    out.append(('sweep_staging', k))
         if w.token == 0 and self.opts.get('token_flip', True):
             out.append(('token', 1))
         return out
 
     def apply(self, w, label):
+        if label[0] == 'sweep_staging' and len(label) > 1:
+            return self._sweep_staging_with_client(w, label[1])
         if label[0] == 'client':
             l = SCRIPTS[w.script][label[1]]
             w.pos += 1
@@ -459,6 +472,37 @@ class Family(dbmc.Harness):
                 w.pos = len(SCRIPTS[w.script])  # a real client stops at the first refused request
             return obs
         return ops.apply(w, label)
+
+    def _sweep_staging_with_client(self, w, k):
+        """the real staging cleaner; just before its k-th DELETE the client sends the remaining bunches of its open update"""
+        from batch.driver import main as dm
+
+        n = [0]
+        script = SCRIPTS[w.script]
+
+        async def abefore(sql, args):
+            if not sql.lstrip().upper().startswith('DELETE FROM JOB_GROUPS_INST_COLL_STAGING'):
+                return
+            n[0] += 1
+            if n[0] != k:
+                return
+            w.backend.abefore = None
+            try:
+                while w.pos < len(script) and script[w.pos][0] != 'commit':
+                    l = tuple(_untup(x) if isinstance(x, tuple) else x for x in script[w.pos])
+                    w.pos += 1
+                    obs = await ops.aapply_client(w, l)
+                    if obs.get('http', 200) >= 400:
+                        w.pos = len(script)
+            finally:
+                w.backend.abefore = abefore
+
+        w.backend.abefore = abefore
+        try:
+            w.run(dm.delete_committed_job_groups_inst_coll_staging_records(w.gdb))
+        finally:
+            w.backend.abefore = None
+        return {'deletes': n[0]}
 
     def pre_view(self, w):
         self._events = []
